@@ -436,6 +436,36 @@ func c13BelowSymlink(real, model c13Tree) bool {
 	return false
 }
 
+// c13CheckRefused: the model's refusedKeys (and the regenerated "the key check is there") against
+// the harness's own reading of "not a legal file name".
+func c13CheckRefused(c *Ctx, r *Result, keys, illegal []string) {
+	var sb strings.Builder
+	fmt.Fprintf(&sb, "%d", len(keys))
+	for _, k := range keys {
+		sb.WriteString(" " + hx(k))
+	}
+	parts := strings.Split(c.Drv.Ask("C13.refused", sb.String()), "\t")
+	want := "."
+	if len(illegal) > 0 {
+		hs := make([]string, len(illegal))
+		for i, k := range illegal {
+			hs[i] = hx(k)
+		}
+		want = strings.Join(hs, ",")
+	}
+	got := ""
+	if len(parts) == 2 {
+		got = parts[1]
+		if got == "" {
+			got = "."
+		}
+	}
+	if len(parts) != 2 || got != want {
+		r.violate(Violation{Kind: "correspondence", Key: "C13:refused-keys", Broken: "mapped_illegal_key_is_refused (refusedKeys / legalName)",
+			What: "the model's refused fork keys differ from the harness's reading of IsLegalUnixFilename", Input: keys, Model: got, Expect: want})
+	}
+}
+
 func c13MappedKey(class string) string {
 	if class == "separable" {
 		return "C13:mapped-materialise"
@@ -542,6 +572,19 @@ func c13DirectMappedX(c *Ctx, r *Result, idx int, seed int64, fixedKeys []string
 		r.hist("mapped:keys:" + t)
 	}
 	c13CheckKeyDirs(c, r, outsRoot, keys, dirs, class)
+	// Since the F24 repair a fork key that is not a legal file name is REFUSED (error, record entry
+	// unchanged, nothing moved); distinct legal keys are always separable.
+	var illegal []string
+	for _, k := range keys {
+		if !c13LegalKey(k) {
+			illegal = append(illegal, k)
+		}
+	}
+	if len(illegal) > 0 {
+		r.hist("mapped:has-illegal-key")
+	}
+	c13CheckRefused(c, r, keys, illegal)
+	class = "separable"
 
 	src := sig.mroKeys(idx%4 == 1, keys)
 	top, err := core.VerifInstantiateTop([]byte(src), ps)
@@ -662,10 +705,61 @@ func c13DirectMappedX(c *Ctx, r *Result, idx int, seed int64, fixedKeys []string
 		}
 		r.violate(Violation{Kind: "property", Key: key, What: what, Input: cas, Impl: d})
 	}
-	c13WalkRecords("map", params, mon, outs, post, ps)
+	legalPre, legalPost := &c13J{K: 'O'}, &c13J{K: 'O'}
+	for i, k := range outs.Keys {
+		if c13LegalKey(k) {
+			legalPre.Keys, legalPre.Vals = append(legalPre.Keys, k), append(legalPre.Vals, outs.Vals[i])
+			if pv := post.get(k); pv != nil {
+				legalPost.Keys, legalPost.Vals = append(legalPost.Keys, k), append(legalPost.Vals, pv)
+			}
+		}
+	}
+	c13WalkRecords("map", params, mon, legalPre, legalPost, ps)
 	own := newC13Mon(ps)
 	own.pre, own.kind, own.occ = mon.pre, mon.kind, mon.occ
-	c13MappedOwnLocation(params, own, outs, post, ps)
+	c13MappedOwnLocation(params, own, legalPre, legalPost, ps)
+	// ---- refused keys: never silent, entry unchanged, nothing moved, nothing outside outs/ ----
+	onlyKeyErrs := perr != nil
+	if perr != nil {
+		for _, l := range strings.Split(perr.Error(), "\n") {
+			if strings.TrimSpace(l) != "" && !strings.Contains(l, "cannot create out directory for fork") {
+				onlyKeyErrs = false
+			}
+		}
+	}
+	{
+		var ifails []string
+		for _, k := range illegal {
+			if perr == nil || !strings.Contains(perr.Error(), fmt.Sprintf("%q", k)) {
+				ifails = append(ifails, fmt.Sprintf("fork key %q is not a legal file name but no error naming it was returned", k))
+			}
+			if pv := post.get(k); pv == nil || pv.canon() != outs.get(k).canon() {
+				ifails = append(ifails, fmt.Sprintf("fork key %q: the record entry of a refused fork was changed or dropped", k))
+			}
+			for _, p := range params {
+				c13Leaves(p, outs.get(k).get(p.Id), func(_ c13Member, v *c13J) {
+					if v.K == 'q' && mon.pre[v.S] != "" && mon.occ[v.S] == 1 {
+						if info, err := os.Lstat(v.S); err != nil || (mon.kind[v.S] == "reg" && info.Mode()&os.ModeSymlink != 0) || c13SigOf(v.S, 0) != mon.pre[v.S] {
+							ifails = append(ifails, fmt.Sprintf("fork key %q: the file %s of a refused fork was moved or changed", k, strip(v.S)))
+						}
+					}
+				})
+			}
+		}
+		for p := range after {
+			if _, was := before[p]; !was && p != outsRoot && !strings.HasPrefix(p, outsRoot+"/") {
+				ifails = append(ifails, "created outside outs/: "+strip(p))
+			}
+		}
+		if len(ifails) > 0 {
+			if len(ifails) > 6 {
+				ifails = ifails[:6]
+			}
+			r.violate(Violation{Kind: "property", Key: "C13:mapped-illegal-key", What: "top-level call mapped over a typed map, fork keys that are not legal file names: " + strings.Join(ifails, "; "),
+				Input: cas, Impl: strip(string(compactJSON(raw))),
+				Expect: "an error naming every such key; its record entry unchanged; its files left in place; nothing created outside outs/ (mapped_illegal_key_is_refused, mapped_nothing_outside_outs)"})
+		}
+	}
 	if len(mon.fails)+len(own.fails) > 0 {
 		key := c13MappedKey(class)
 		if class == "separable" && len(own.fails) > 0 {
@@ -754,14 +848,14 @@ func c13DirectMappedX(c *Ctx, r *Result, idx int, seed int64, fixedKeys []string
 		return
 	}
 	mj, merr := c13ParseJSON([]byte(unhx(parts[0])))
-	if perr != nil {
+	if perr != nil && !onlyKeyErrs {
 		// the record is not rewritten when an element could not be serialised; the tree is still compared
 	} else if merr != nil || mj.canon() != post.canon() {
 		r.violate(Violation{Kind: "correspondence", Key: "C13:model-json-mapped", Broken: "correspondence postMap / joinKey (rewritten _outs)",
 			What: "rewritten top-level _outs of a call mapped over a typed map differs between the real Fork.postProcess and the model", Input: cas,
 			Impl: strip(string(compactJSON(raw))), Model: strip(unhx(parts[0]))})
 	}
-	if d := c13TreeDiff(after, c13ParseTree(parts[1]), []string{root}); len(d) > 0 && perr == nil {
+	if d := c13TreeDiff(after, c13ParseTree(parts[1]), []string{root}); len(d) > 0 && (perr == nil || onlyKeyErrs) {
 		if len(d) > 8 {
 			d = d[:8]
 		}
@@ -776,26 +870,14 @@ func c13DirectMappedX(c *Ctx, r *Result, idx int, seed int64, fixedKeys []string
 	}
 }
 
-// c13MappedWitnesses replays the negative-witness theorems of Props.C13 on the real code:
-// mapped_colliding_keys_second_skipped ({"a","a/"}, one file r) and mapped_dotdot_key_escapes_outs.
+// c13MappedWitnesses runs the key sets of the negative-witness theorems of Props.C13 (code before
+// the F24 repair) on the real code: with the repair the keys `a/`, `..`, `a/b`, `` must be refused
+// with an error (monitor C13:mapped-illegal-key inside c13DirectMapped), `a`, `b`, `x` materialised.
 func c13MappedWitnesses(c *Ctx, r *Result) {
 	sig := &c13Sig{Filetypes: c13UserTypes, Params: []c13Member{{Id: "r", Ty: &c13Ty{Kind: "f", Mro: "file"}}}}
 	for i, ks := range [][]string{{"a", "a/"}, {".."}, {"a", "a/b", "b"}, {"", "x"}} {
-		before := len(r.Violations)
 		c13DirectMapped(c, r, 900000+i, int64(7+i), ks, sig, "witness-"+strings.Join(ks, ","))
-		found := false
-		for _, v := range r.Violations[before:] {
-			if v.Key == "C13:mapped-key-dirs-overlap" {
-				found = true
-			}
-		}
-		if i < 2 {
-			if found {
-				r.hist("mapped:witness-replayed")
-			} else {
-				r.note("mapped: the negative witness for keys %q did not show on the real code (leaf kinds are random: missing/null leaves give nothing to check)", ks)
-			}
-		}
+		r.hist("mapped:witness-keys-run")
 	}
 }
 
